@@ -386,6 +386,15 @@ pub fn instance(form: &Form, rng: &mut Rng, opt: GenOpt, fixed: &BTreeMap<char, 
         if rng.chance(1, 4) && sp + 12 < 0xffff20 {
             sp |= 2;
         }
+        // stack pointers exactly at a region boundary: the frame then lies in another bus area than SP itself
+        if rng.chance(1, 6) {
+            let pops = form.name == "RTS" || form.name == "RTE";
+            sp = if pops {
+                *rng.pick(&[0x5ffffcu32, 0xffff1c, 0x400000, 0xffbf20, 0x5ffffe, 0xffbf1c, 0x5ffff8])
+            } else {
+                *rng.pick(&[0x600000u32, 0xffff20, 0x400004, 0xffbf24, 0xffbf20, 0x600002, 0x400000])
+            };
+        }
         c.er[7] = sp | if opt.wild_addr { (rng.u8() as u32) << 24 } else { 0 };
         if form.name == "RTS" || form.name == "RTE" {
             let ret = code_addr(rng, 2);
@@ -1059,7 +1068,7 @@ impl StepMode {
             }
             let mut c = CaseB::new();
             c.er = adv_regs(rng);
-            c.er[0] = *rng.pick(&[104u32, 113, 104, 113, 0, 0xffffffff]);
+            c.er[0] = *rng.pick(&[104u32, 113, 104, 113, 0, 0xffffffff, 0x10068, 0xffff0071, 0x00680068, 104 << 16, 0x80000068, 0x10071]);
             c.pc = code_addr(rng, 2);
             c.put_words(c.pc, &[0x5700]);
             if rng.chance(2, 3) {
@@ -1193,7 +1202,12 @@ impl StepMode {
                         0 => 0,
                         1 => 103,
                         2 => 105,
-                        _ => rng.u32(),
+                        _ => match rng.below(3) {
+                            // only the whole 32-bit ER0 selects a call: the low word alone must not
+                            0 => ((rng.range(1, 0xffff) as u32) << 16) | *rng.pick(&[104u32, 113]),
+                            1 => *rng.pick(&[104u32, 113]) << 16,
+                            _ => rng.u32(),
+                        },
                     };
                     if c.er[0] == 104 || c.er[0] == 113 {
                         c.er[0] = 1;
